@@ -28,16 +28,24 @@ const (
 type c16Plugin struct {
 	cfgOK  atomic.Int32
 	synced atomic.Int32
-	mu     sync.Mutex
-	events []string
+	mu       sync.Mutex
+	events   []string
+	lastSync string
 }
 
 func (p *c16Plugin) Configure(context.Context, string, string, string) (api.EventMask, error) {
 	p.cfgOK.Add(1)
 	return 0, nil
 }
-func (p *c16Plugin) Synchronize(context.Context, []*api.PodSandbox, []*api.Container) ([]*api.ContainerUpdate, error) {
+func (p *c16Plugin) Synchronize(_ context.Context, pods []*api.PodSandbox, _ []*api.Container) ([]*api.ContainerUpdate, error) {
 	p.synced.Add(1)
+	var ids []string
+	for _, x := range pods {
+		ids = append(ids, x.GetId())
+	}
+	p.mu.Lock()
+	p.lastSync = strings.Join(ids, ",")
+	p.mu.Unlock()
 	return nil, nil
 }
 func (p *c16Plugin) RunPodSandbox(_ context.Context, pod *api.PodSandbox) error {
@@ -65,6 +73,8 @@ type dialSpec struct {
 	Silent  bool   `json:"never_configures,omitempty"`
 	CutDir  string `json:"cut_dir,omitempty"` // "write" | "read" (from the stub's point of view)
 	CutAt   int    `json:"cut_at,omitempty"`
+	// PartialSync: the runtime sends one acknowledged chunk of a split synchronization, then drops the connection
+	PartialSync bool `json:"partial_sync,omitempty"`
 }
 
 type c16Session struct {
@@ -74,6 +84,8 @@ type c16Session struct {
 	ready chan struct{} // handshake finished from the runtime's point of view
 	gone  chan struct{}
 	err   error
+	// syncPods is what this session's (complete) synchronization carried
+	syncPods string
 }
 
 type c16Env struct {
@@ -108,6 +120,9 @@ func (e *c16Env) dial(string) (net.Conn, error) {
 		return nil, err
 	}
 	s := &c16Session{spec: spec, cut: cut, rr: rr, ready: make(chan struct{}), gone: make(chan struct{})}
+	e.mu.Lock()
+	s.syncPods = fmt.Sprintf("fresh-%d", e.dials)
+	e.mu.Unlock()
 	if spec.Refuse {
 		rr.OnRegister = func(*api.RegisterPluginRequest) error { return errors.New("scripted: registration refused") }
 	}
@@ -135,7 +150,13 @@ func (e *c16Env) dial(string) (net.Conn, error) {
 			s.err = err
 			return
 		}
-		if _, err := rr.Plugin.Synchronize(ctx, &api.SynchronizeRequest{}); err != nil {
+		if spec.PartialSync {
+			_, err := rr.Plugin.Synchronize(ctx, &api.SynchronizeRequest{Pods: []*api.PodSandbox{{Id: "stale-pod"}}, More: true})
+			s.err = fmt.Errorf("partial sync then drop (chunk ack err=%v)", err)
+			rr.Close()
+			return
+		}
+		if _, err := rr.Plugin.Synchronize(ctx, &api.SynchronizeRequest{Pods: []*api.PodSandbox{{Id: s.syncPods}}}); err != nil {
 			s.err = err
 			return
 		}
@@ -232,13 +253,25 @@ func (x *c16Ctx) startOK(e *c16Env, site string) *c16Session {
 	case <-s.gone:
 		select {
 		case <-s.ready: // finished normally: both channels are closed by then
-			return s
+			return x.syncedOK(e, s, site)
 		default:
 		}
 		x.viol(site, fmt.Sprintf("Start returned success but the handshake did not complete on the runtime side: %v", s.err))
 		return nil
 	case <-time.After(c16Hard):
 		x.viol(site, "Start returned success but the runtime side never finished the handshake")
+		return nil
+	}
+	return x.syncedOK(e, s, site)
+}
+
+// syncedOK checks that the session's synchronization reached the handler exactly as sent.
+func (x *c16Ctx) syncedOK(e *c16Env, s *c16Session, site string) *c16Session {
+	e.plug.mu.Lock()
+	got := e.plug.lastSync
+	e.plug.mu.Unlock()
+	if got != s.syncPods {
+		x.viol("restart-stale-state", fmt.Sprintf("%s: the started plugin was synchronized with pods [%s] but the runtime sent [%s]", site, got, s.syncPods))
 		return nil
 	}
 	return s
@@ -332,6 +365,22 @@ func c16History(res *ev.Result, ops []string, tag string, hookDelay bool) {
 				return
 			}
 			established++
+		case "start-partial-sync":
+			if cur != nil {
+				continue
+			}
+			// Start succeeds (the plugin gets configured), then the connection is dropped in mid-synchronization
+			e.setNext(dialSpec{PartialSync: true})
+			var err error
+			if !x.timed("Start (partial sync)", "start.partial-sync", func() { err = e.st.Start(context.Background()) }) {
+				return
+			}
+			if err == nil {
+				established++
+				if !x.timed("Wait after connection loss", "wait.after-loss", e.st.Wait) {
+					return
+				}
+			}
 		case "start-unreachable", "start-refused", "start-silent":
 			if cur != nil {
 				continue
@@ -477,11 +526,13 @@ func runC16(c *ev.ChildEnv, res *ev.Result) {
 		{"start-unreachable", "start", "event"},
 		{"start-refused", "wait", "start", "event", "pause", "event"},
 		{"start-silent", "start", "event"},
+		{"start-partial-sync", "start", "event"},
+		{"start", "stop", "start-partial-sync", "start-partial-sync", "start", "event", "pause", "event"},
 		{"start", "start", "event", "stop", "stop", "wait"},
 		{"wait", "stop", "start", "event", "loss", "wait", "start-unreachable", "start", "event"},
 		{"start", "stop", "start", "stop", "start", "stop", "start", "pause", "event"},
 	}
-	opsPool := []string{"start", "start", "stop", "loss", "wait", "event", "event", "pause", "start-unreachable", "start-refused"}
+	opsPool := []string{"start", "start", "stop", "loss", "wait", "event", "event", "pause", "start-unreachable", "start-refused", "start-partial-sync"}
 	hn := 0
 	addHist := func(ops []string) {
 		hn++
